@@ -234,6 +234,9 @@ func zero(t types.Type) value {
 		if t == reflectValueNamed {
 			return rval{}
 		}
+		if isOpaqueNamed(t) {
+			return hostObj{}
+		}
 		return zero(t.Underlying())
 	case *types.Alias:
 		return zero(types.Unalias(t))
@@ -1534,24 +1537,11 @@ func conv(fr *frame, t_dst, t_src types.Type, x value) value {
 			break // fail: no other conversions for string
 		}
 
-		// unsafe.Pointer -> *value
+		// unsafe.Pointer -> *value: only round trips of cell pointers are meaningful
 		if ut_src.Kind() == types.UnsafePointer {
-			// TODO(adonovan): this is wrong and cannot
-			// really be fixed with the current design.
-			//
-			// return (*value)(x.(unsafe.Pointer))
-			// creates a new pointer of a different
-			// type but the underlying interface value
-			// knows its "true" type and so cannot be
-			// meaningfully used through the new pointer.
-			//
-			// To make this work, the interpreter needs to
-			// simulate the memory layout of a real
-			// compiled implementation.
-			//
-			// To at least preserve type-safety, we'll
-			// just return the zero value of the
-			// destination type.
+			if _, ok := ut_dst.(*types.Pointer); ok {
+				return (*value)(x.(unsafe.Pointer))
+			}
 			return zero(t_dst)
 		}
 
